@@ -477,7 +477,7 @@ def parse_config(path):
         _input["paths"] = None
 
     # Output fields are optional, default: most data output, least logging output.
-    _output = toml.get("output", {})
+    _output = toml.setdefault("output", {})
     if "directory" in _output:
         _output["directory"] = resolve_path(_output["directory"], path.parent)
     else:
